@@ -20,11 +20,12 @@ THEOREMS = [
     'cond_eval_bool', 'cond_sem_and', 'cond_sem_or', 'cond_sem_not', 'cond_sem_xor',
     'periodLocal_iff', 'periodGlobal_iff', 'periodLocal_iff_exists', 'periodGlobal_iff_exists',
     'intervalLocal_iff', 'intervalGlobal_iff', 'onFirstLocal_iff', 'onFirstGlobal_iff', 'onLast_iff', 'monitor_cb_iff',
-    'repeated_state', 'repeated_iff', 'repeated_threshold_iff', 'repeated_below_first_epoch_witness',
-    'action_runs_iff_condition', 'callbacks_preserve_ctx', 'epoch_ctx',
-    'stop_flag_iff', 'stop_semantics', 'early_exit_only_by_stop', 'fit_after_stop_runs', 'loop_locs',
+    'repeated_state', 'soFarAfter_ge_iff', 'repeated_iff', 'repeated_threshold_iff', 'repeated_below_first_epoch_witness',
+    'callbacks_preserve_ctx', 'callbacks_log', 'action_runs_iff_condition', 'epoch_ctx',
+    'epochStep_log', 'pure_callback_persists', 'loop_pure_persist', 'pure_action_runs_iff_sem',
+    'stop_flag_iff', 'stop_semantics', 'early_exit_only_by_stop', 'fit_after_stop_runs', 'loop_locs', 'fit_epochs',
     'set_once', 'set_reset', 'set_effect', 'setOptimizer_once', 'setOptimizer_reset', 'setOptimizer_distinct_params',
-    'trunc_eq_floor_under_max', 'floor_logb_ge_iff', 'eveK_spec', 'eve_formula',
+    'trunc_eq_floor_under_max', 'floor_logb_ge_iff', 'eveK_spec', 'eve_formula', 'eve_model_eq_code', 'eve_action',
 ]
 LOSS_OFFSET = 1000
 PER_NET = 4
@@ -756,7 +757,7 @@ def gen_scripts(tier, seed):
     # (a) every leaf predicate, every period 1..5 with offsets -p..2p, every closed interval over {None,0..13}, monitors
     leaves = all_leaf_specs()
     for fits in [COVER_FITS, [3, 5, 1, 6]] + [rand_fits(rng) for _ in range(1 if quick else 6)]:
-        S.append(dict(family='leaves', cbs=[dict(cond=l, action=['spy']) for l in leaves], fits=fits))
+        S.append(dict(family='leaves', cbs=[dict(cond=l, action=['spy']) for l in leaves], fits=fits, cbs_ref='all_leaf_specs'))
     # the same leaves, the call stopped early by a conditioned stop (callbacks after the stop still run in that epoch)
     S.append(dict(family='leaves', cbs=[dict(cond=['pg', 4, 3], action=['stop'])] + [dict(cond=l, action=['spy']) for l in leaves[:200]],
                   fits=[6, 6, 0, 6]))
@@ -777,12 +778,12 @@ def gen_scripts(tier, seed):
             S.append(dict(family='truth-table-epochs', kind='table', depth=2, start=st, count=min(20000, total - st), leaves=pool,
                           fits=COVER_FITS))
     # (d) random terms of depth <= 3 (incl. n-ary lists) over random leaves, random fit sequences
-    for _ in range(6 if quick else 60):
+    for _ in range(15 if quick else 80):
         S.append(dict(family='random-terms', cbs=[dict(cond=rand_tree(rng, 3), action=['spy']) for _ in range(60)] +
                       [dict(cond=rand_tree(rng, 2), action=None)], fits=rand_fits(rng, 2)))
     # (e) fit() sequences: up to 4 calls, max_epochs 0..6 — all of them in thorough — with stops and a fixed callback mix
     seqs = [list(s) for k in range(1, 5) for s in itertools.product(range(7), repeat=k)]
-    for fits in (rng.sample(seqs, 60) if quick else seqs):
+    for fits in (rng.sample(seqs, 200) if quick else seqs):
         stop_cond = rng.choice([['pg', rng.randint(2, 5), rng.randint(0, 4)], ['il', rng.randint(2, 5), None], ['oll'],
                                 ['and', ['pl', 2, 0], ['ig', 3, None]], ['F']])
         cbs = [dict(cond=['oll'], action=['spy']), dict(cond=stop_cond, action=['stop']), dict(cond=['ofl'], action=['spy']),
@@ -801,7 +802,7 @@ def gen_scripts(tier, seed):
     if not quick:
         for h in itertools.product(range(3), repeat=6):
             S.append(dict(family='repeated-exhaustive', cbs=rep_cbs([s for s in rep_all if s[3]]), fits=[6], train=list(h), valid=[]))
-    for _ in range(25 if quick else 300):
+    for _ in range(60 if quick else 400):
         fits = rand_fits(rng, 1)
         n = sum(fits)
         mode = rng.random()
@@ -813,7 +814,7 @@ def gen_scripts(tier, seed):
         S.append(dict(family='repeated', cbs=rep_cbs(specs) + [dict(cond=rand_rep(rng), action=['stop'])], fits=fits, train=tr, valid=va,
                       solver=dict(n_valid=rng.choice([1, 1, 1, 0]))))
     # (g) set-once / reset actions, optimizer instances and classes, one or two unknowns, shared or separate networks
-    for i in range(24 if quick else 200):
+    for i in range(60 if quick else 300):
         nets = rng.choice([[0], [0, 0], [0, 1], [0, 0], [0, 1, 0]])
         cbs = []
         for _ in range(rng.randint(2, 6)):
@@ -829,7 +830,7 @@ def gen_scripts(tier, seed):
                       valid=[rng.randint(1, 9) for _ in range(n)]))
     # (h) the batch-count rule on scripted metric values (dyadic rationals m / 2^16), inside fit()
     den = 2 ** 16
-    for _ in range(12 if quick else 150):
+    for _ in range(30 if quick else 200):
         v0, p = rng.choice([1.0, 0.5, 2.0, 0.3, 1.0]), rng.choice([0.1, 0.5, 0.25, 0.9, 0.01, 0.1])
         n0, nmax, ut = rng.choice([1, 1, 2, 3]), rng.choice([None, None, 4, 8, 5, 1]), rng.random() < 0.7
         a = ['eve', v0, p, n0, nmax, ut]
@@ -934,7 +935,7 @@ def check(tier, seed):
         pending.append((s, real_lines(s, rec, hist, info)))
         blocks.append(driver_block(s))
         validated += 1
-        if sum(len(b) for b in blocks) > 20_000_000 or s.get('kind') == 'table' and s['count'] >= 60000 and len(pending) >= 4:
+        if len(pending) >= 800:
             driver_s += flush()
     t_real = time.time() - t_real - driver_s
     driver_s += flush()
@@ -993,8 +994,8 @@ def slim(s):
     if s.get('kind') == 'table':
         return s
     d = dict(s)
-    if len(d.get('cbs', [])) > 80:
-        d = dict(d, cbs_family='all leaf predicates (harness.props.C16.all_leaf_specs)', n_cbs=len(d['cbs']))
+    if d.get('cbs_ref') == 'all_leaf_specs':
+        d = dict(d, n_cbs=len(d['cbs']))      # one spy per leaf predicate of all_leaf_specs(); rebuilt by replay()
         d.pop('cbs')
     return d
 
